@@ -37,16 +37,16 @@ def gen_history(rng, long=False):
     bust = rng.choice(["on-apply", "none"])
     namespaces = rng.choice([["t2:semantic"], []])
     cfg = {"t4": {"snapshot_every_n_turns": n_every, "cache_bust_mode": bust, "cache": {"enabled": True, "namespaces": namespaces, "max_entries": 64, "ttl_sec": 600},
-                  "delta_norm_cap_l2": rng.choice([1.5, 100.0]), "novelty_cap_per_node": rng.choice([0.3, 1.0]), "churn_cap_edges": rng.choice([0, 2, 64])}}
+                  "delta_norm_cap_l2": rng.choice([1.5, 100.0]), "novelty_cap_per_node": rng.choice([0.3, 1.0]), "churn_cap_edges": rng.choice([0, 2, 64, 64])}}
     if rng.random() < 0.3:
         cfg["t4"]["cooldowns"] = {"EditGraph": rng.choice([0, 2])}
     turns = []
     tid = rng.choice([0, 1, 5])
     for i in range(rng.randint(5, 30 if long else 12)):
-        nd = rng.choice([0, 1, 2, 3, 6, 12])
-        targets = [f"n:{rng.choice('abcdefgh')}" for _ in range(nd)]
+        nd = rng.choice([0, 1, 2, 3, 6, 12, 12, 40, 64])
+        targets = [f"n:{rng.choice('abcdefgh')}" for _ in range(nd)] if nd <= 12 else [f"n:t{j:02d}" for j in rng.sample(range(80), nd)]
         deltas = [["node" if rng.random() < 0.7 else "edge", t, "weight", rng.choice([0.1, -0.2, 0.3, 0.05, 1.0, -1.0, 0.0]), rng.choice([0, 1, None])] for t in targets]
-        fault = rng.choice(["none", "none", "batch", "batch+some-singles", "all", "second-batch-ok"])
+        fault = rng.choice(["none", "none", "batch", "batch+some-singles", "all", "second-call"])
         exc = rng.choice(list(EXC))
         fail_idx = sorted(rng.sample(range(12), rng.randint(1, 4)))
         t_id = tid
@@ -116,6 +116,8 @@ def check_history(case, sess: Session):
                     real_store.script = [excs] + [(excs if i in t["fail_idx"] else None) for i in range(12)]
                 elif t["fault"] == "all":
                     real_store.fail_all = excs
+                elif t["fault"] == "second-call":
+                    real_store.script = [None, excs]  # unreachable unless the hand-off is split into several calls
             # sentinels
             for ns in ("t2:semantic", "other:ns"):
                 cm.set(ns, ("sentinel", ti), "v")
